@@ -61,7 +61,7 @@ func runEngineProperty(t *testing.T, prop, test string, gen func(*rapid.T) Progr
 		return
 	}
 	// replay tier: committed regression inputs first (shard 0 only)
-	if shardNo() == 0 {
+	if firstShard() {
 		for _, rf := range regressFiles(test) {
 			var c Program
 			if err := loadCaseFile(rf, &c); err != nil {
